@@ -111,7 +111,7 @@ example : (Fan.run 2 [.done 1 (.num 1), .done 0 (.num 0), .fail 1 (S "late")]).e
 `run q init is` runs the model on ANY sequence `is` of launches, branch events, deferred handlers, task replies / wait
 expiries, cancellation callbacks, top-level endings and back-stop ticks (attempt ids, branch indices, continuations and
 Retry / Catch decisions arbitrary); `Quirks.none` is the repaired protocol, `Quirks.asCode` the code as it is
-(findings C06-F3, C06-F4, C06-F5: each switch has its negation witness below). -/
+(findings C06-F3 … C06-F6: each switch has its negation witness below). -/
 section FanProto
 open Asl.FanProto
 
@@ -181,6 +181,16 @@ theorem retry_launches_fresh_attempt (s : Proto) (a b i : Nat) (x : Attempt) (in
     find (step Quirks.none s inp).1.atts b = find s.atts b ∧ ∀ o ∈ (step Quirks.none s inp).2, o.quiet = true :=
   old_attempt_inputs_inert s a b i x inp hrun hx ht hne hb hinp
 
+/-- (vii) siblings make no further progress: in the repaired protocol the step in which an attempt fails — whether the
+failure is then retried, caught or ends the execution — leaves no task or wait outstanding in any attempt that is dead:
+the failed attempt itself and every attempt nested, at any depth, in one of its branches (each is cancelled in that step) -/
+theorem failure_cancels_nested (is : List Inp) (inp : Inp) (a : Nat) (e : Err)
+    (h : Out.failAttempt a e ∈ (step Quirks.none (run Quirks.none init is).1 inp).2) :
+    ∀ x ∈ (step Quirks.none (run Quirks.none init is).1 inp).1.atts, x.seen = true →
+      deadChain (step Quirks.none (run Quirks.none init is).1 inp).1.atts x.id = true →
+      ∀ sl ∈ x.slots, sl.cancellable = false :=
+  step_failure_cancels_nested _ inp a e (run_ts Quirks.none init is (by intro x hx; cases hx)) h
+
 /-! ### the switches of the open findings break exactly these statements (negations, proved on concrete witnesses) -/
 
 /-- the outer attempt 0 (two branches) fails and is retried while attempt 1, nested in its branch 1, has a task out -/
@@ -190,11 +200,26 @@ def nestedRetried : List Inp :=
 /-- … then the nested attempt's task fails too -/
 def nestedFailsLater : List Inp := [.reply 1 0 (.fail (.plain 2) [.uncaught, .retried])]
 
-/-- C06-F3 (`refail`): the terminated attempt 0 is failed again, with the other error, and retried a second time -/
+/-- the code as it was when C06-F3 was found: the nested task survives the enclosing failure (C06-F6) and its failure … -/
+def asFoundF3 : Quirks := { refail := true, nestedSurvive := true }
+
+/-- C06-F3 (`refail`): … fails the terminated attempt 0 again, with the other error, and retries it a second time -/
 theorem refail_breaks_first_failure_wins :
-    Out.failAttempt 0 (.plain 1) ∈ (run { refail := true } init nestedRetried).2 ∧
-    Out.failAttempt 0 (.plain 2) ∈ (run { refail := true } (run { refail := true } init nestedRetried).1 nestedFailsLater).2 ∧
-    Out.retry 0 1 ∈ (run { refail := true } (run { refail := true } init nestedRetried).1 nestedFailsLater).2 := by decide
+    Out.failAttempt 0 (.plain 1) ∈ (run asFoundF3 init nestedRetried).2 ∧
+    Out.failAttempt 0 (.plain 2) ∈ (run asFoundF3 (run asFoundF3 init nestedRetried).1 nestedFailsLater).2 ∧
+    Out.retry 0 1 ∈ (run asFoundF3 (run asFoundF3 init nestedRetried).1 nestedFailsLater).2 := by decide
+
+/-- … then the nested attempt's task answers after all -/
+def nestedRepliesLater : List Inp := [.reply 1 0 (.done 3 [true])]
+
+/-- C06-F6 (`nestedSurvive`): the task of the nested attempt 1 is still outstanding after attempt 0 failed (nothing cancelled
+it), its late reply is accepted and the abandoned join hands over -/
+theorem nested_survive_breaks_cancellation :
+    Out.failAttempt 0 (.plain 1) ∈ (run { nestedSurvive := true } init nestedRetried).2 ∧
+    Out.cancel 1 0 ∉ (run { nestedSurvive := true } init nestedRetried).2 ∧
+    slotOf (run { nestedSurvive := true } init nestedRetried).1.atts 1 0 = some .task ∧
+    (run { nestedSurvive := true } (run { nestedSurvive := true } init nestedRetried).1 nestedRepliesLater).2 =
+      [.progress 1 0, .succeed 1 [3]] := by decide
 
 /-- three levels: attempt 2 in attempt 1 in branch 1 of attempt 0; branch 0 of attempt 0 fails unhandled: the execution ends -/
 def deepThenOuterFails : List Inp :=
@@ -212,9 +237,12 @@ theorem one_level_lookup_breaks_inertness :
 /-! non-vacuity: the hypotheses of the theorems above are met by these runs, and the repaired protocol does what they say -/
 example : Out.failAttempt 0 (.plain 1) ∈ (run Quirks.none init nestedRetried).2 := by decide
 example : (run Quirks.none init nestedRetried).2 =
-    [.launched 0, .progress 0 1, .launched 1, .progress 1 0, .progress 0 0] ++ Out.failAttempt 0 (.plain 1) :: [.retry 0 1] := by decide
-example : (run Quirks.none (run Quirks.none init nestedRetried).1 nestedFailsLater).2 =
-    [.progress 1 0, .failAttempt 1 (.plain 2)] := by decide
+    [.launched 0, .progress 0 1, .launched 1, .progress 1 0, .progress 0 0] ++ Out.failAttempt 0 (.plain 1) :: [.retry 0 1, .cancel 1 0] := by
+  decide
+/-- the repaired protocol cancels the nested task in the step of the failure; what arrives for it later is an orphan -/
+example : slotOf (run Quirks.none init nestedRetried).1.atts 1 0 = some .cancelling ∧
+    (run Quirks.none (run Quirks.none init nestedRetried).1 nestedFailsLater).2 = [.orphan 1 0] ∧
+    (run Quirks.none (run Quirks.none init nestedRetried).1 ([.echo 1 0] ++ nestedRepliesLater)).2 = [.aborted 1, .orphan 1 0] := by decide
 example : Out.endExecution false ∈ (run Quirks.none init deepThenOuterFails).2 := by decide
 example : (run Quirks.none (run Quirks.none init deepThenOuterFails).1 deepEventLater).2 = [.drop 2 0, .discard] := by decide
 example : (run Quirks.none init deepThenOuterFails).1.ended.isSome = true ∧ (run Quirks.none init deepThenOuterFails).1.hasMeta = true ∧
